@@ -276,7 +276,7 @@ func allSpecs() []*pluginSpec {
 		c(`{"field":"a"}`, "a"), c(`{"field":"a.b"}`, "a.b"), c(`{"field":""}`, "a"), c(`{}`, "a"), c(`{"field":"a.0"}`, "a"),
 	}})
 
-	parseEsSeq := []string{`{"index":{"_index":"a"}}`, `{"create":{}}`, `{"update":{}}`, `{"delete":{}}`, `{"a":"a"}`, `{"index":1,"delete":1}`, `[1]`, `{"index":` + badUTF8 + `}`, `"a"`}
+	parseEsSeq := []string{`{"index":{"_index":"a"}}`, `{"create":{}}`, `{"update":{}}`, `{"delete":{}}`, `{"a":"a"}`, `{"index":1,"delete":1}`, `{"update":{},"index":{}}`, `[1]`, `{"index":` + badUTF8 + `}`, `"a"`}
 	add(&pluginSpec{Type: "parse_es", Timeouts: true, Stateful: true, Seq: parseEsSeq, Prefix: []string{`{"index":{}}`}, Configs: []cfgSpec{
 		c(`{}`, "index", "update"), c(`{}`, "delete", "create"),
 		{JSON: `{}`, Keys: []string{"index"}, Settings: &settingsSpec{IsStrict: true}},
